@@ -1414,6 +1414,127 @@ def r7_reorder_geometry(ctx):
                   "(for every ordering of three boundary DOF, under either reading of the table's row order)", geo[0][3], None if ok else [bad_b, bad_a])
 
 
+# ============================================================================================================ R8  cgmass
+def r8_cgmass(ctx):
+    """cgmass recovers the mass properties of any rigid 6x6 mass.  The mass of a rigid body seen from a reference point is
+    M = T^T blkdiag(diag(mx, my, mz), J) T with T = [[1, -skew(d)], [0, 1]] (d the offset of the cg, J the inertia about the cg; the translational
+    mass may differ per direction - the general form of the function's own documentation).  cgmass is run on that matrix with its entries as exact
+    polynomials in mx, my, mz, dx, dy, dz and the six entries of J (verifier/c06_cgmass.py: dense arrays of concrete shape, views share storage,
+    helpers followed) and must return, identically in the twelve symbols: the offset d, and blkdiag(diag(mx, my, mz), J) - translational block
+    unchanged, coupling blocks zero, rotary block J; with all6 the same two results, J again as the inertia, and radii of gyration with
+    gyr_i^2 = J_ii / m_i.  A subscript mix-up in the parallel-axis terms is invisible for an isotropic mass (mx = my = mz) and for every stored
+    model; here it leaves a non-zero polynomial."""
+    from . import c06_cgmass as cg
+    fn = cs.func(ctx, CB, "cgmass")
+    funcs = {k: v for k, v in cs.module_funcs(ctx, CB).items() if k != "cgmass"}
+    consts = cs.module_consts(ctx, CB)
+    aliases = cs.import_aliases(ctx, CB)
+    params = [a.arg for a in fn.args.posonlyargs + fn.args.args]
+    if len(params) < 1 or fn.args.vararg is not None:
+        ctx.error("cgmass: the signature (mass matrix first) was not recognised", fn, params)
+        return
+
+    def evaluate(all6):
+        M, masses, d, J = cg.rigid_mass()
+        before = M.cells()
+        mach = cg.Machine(funcs, consts, aliases)
+        kw = {}
+        if "all6" in params or any(a.arg == "all6" for a in fn.args.kwonlyargs):
+            kw["all6"] = all6
+        elif all6:
+            return None
+        try:
+            ret = mach.call_closure(cg.Closure(fn, None, "cgmass"), [M], kw, fn)
+        except cg.Raised as e:
+            ctx.fail(f"cgmass (all6={all6}): returns for a symmetric rigid mass (every test on the way to this raise was decided)", e.node, str(e))
+            return None
+        except (Unsupported, RecursionError) as e:
+            ctx.error(f"cgmass (all6={all6}): the function could not be followed by value", fn, str(e)[:200])
+            return None
+        for n_ in mach.notes:
+            ctx.assume("cgmass: " + n_)
+        return ret, masses, d, J, mach
+
+    def table(v, shape):
+        """cells of an array (or nested sequence) of the given shape; None when v is something else; "unknown" when a cell is not known"""
+        if isinstance(v, (list, tuple)):
+            try:
+                v = cg.to_arr(v)
+            except Unsupported:
+                return None
+        if cg.is_unknown(v):
+            return "unknown"
+        if not isinstance(v, cg.Arr) or v.shape != shape:
+            return None
+        cells = v.cells()
+        if any(cg.is_unknown(c) for c in cells):
+            return "unknown"
+        if not all(cg.is_num(c) for c in cells):
+            return None
+        return cells
+
+    def obligation(cells, want, text, node, shape):
+        if cells == "unknown":
+            ctx.error(text + " [not decided: a value reaching this comparison is unknown]", node)
+            return False
+        if cells is None:
+            return ctx.check(False, text, node, f"the result is not an array of shape {shape}")
+        bad = [(divmod(i, shape[-1]) if len(shape) == 2 else i, _r(c - w, 200)) for i, (c, w) in enumerate(zip(cells, want)) if not c.equals(w)]
+        return ctx.check(not bad, text, node, None if not bad else {"returned minus expected, at the entries that differ": bad[:6]})
+
+    def block(cells, r0, c0):
+        return [cells[(r0 + i) * 6 + c0 + j] for i in range(3) for j in range(3)]
+
+    first = None
+    for all6 in (False, True):
+        res = evaluate(all6)
+        if res is None:
+            continue
+        ret, masses, d, J, mach = res
+        n_want = 6 if all6 else 2
+        if cg.is_unknown(ret):
+            ctx.error(f"cgmass (all6={all6}): the returned value is unknown", fn, repr(ret))
+            continue
+        if not isinstance(ret, (tuple, list)) or len(ret) != n_want:
+            ctx.check(False, f"cgmass (all6={all6}): returns {n_want} values (mcg, dxyz" + (", gyr, princ_gyr, I, princ_I)" if all6 else ")"), fn,
+                      type(ret).__name__ if not isinstance(ret, (tuple, list)) else len(ret))
+            continue
+        mcg, dxyz = table(ret[0], (6, 6)), table(ret[1], (3,))
+        zero9 = [cg.ZERO] * 9
+        Jc = [J[i][j] for i in range(3) for j in range(3)]
+        diag = [masses[i] if i == j else cg.ZERO for i in range(3) for j in range(3)]
+        if not all6:
+            obligation(dxyz, list(d), "cgmass: the returned offset is the offset d of the cg from the reference point, for every rigid mass "
+                                      "M = T^T blkdiag(diag(mx, my, mz), J) T", fn, (3,))
+            if isinstance(mcg, list):
+                obligation(block(mcg, 0, 0), diag, "cgmass: the translational block of the mass at the cg is diag(mx, my, mz)", fn, (3, 3))
+                ok1 = all(c.equals(z) for c, z in zip(block(mcg, 0, 3) + block(mcg, 3, 0), zero9 + zero9))
+                ctx.check(ok1, "cgmass: the translation / rotation coupling blocks of the mass at the cg are zero (both of them)", fn,
+                          None if ok1 else {"upper right": [_r(c, 80) for c in block(mcg, 0, 3)], "lower left": [_r(c, 80) for c in block(mcg, 3, 0)]})
+                obligation(block(mcg, 3, 3), Jc, "cgmass: the rotary block of the mass at the cg is the inertia about the cg, identically in mx, my, mz, d and J "
+                                                  "(parallel-axis terms: the mass that multiplies d_j^2 in I_ii is the mass moving in the third direction)", fn, (3, 3))
+            else:
+                for text in ("cgmass: the translational block of the mass at the cg is diag(mx, my, mz)",
+                             "cgmass: the translation / rotation coupling blocks of the mass at the cg are zero (both of them)",
+                             "cgmass: the rotary block of the mass at the cg is the inertia about the cg, identically in mx, my, mz, d and J "
+                             "(parallel-axis terms: the mass that multiplies d_j^2 in I_ii is the mass moving in the third direction)"):
+                    obligation(mcg, None, text, fn, (6, 6))
+            first = (mcg, dxyz)
+        else:
+            if first is not None and isinstance(first[0], list) and isinstance(first[1], list):
+                same = isinstance(mcg, list) and isinstance(dxyz, list) and all(a.equals(b) for a, b in zip(mcg + dxyz, first[0] + first[1]))
+                if mcg == "unknown" or dxyz == "unknown":
+                    ctx.error("cgmass: all6 changes how much is returned, not the mass at the cg and the offset [not decided: a value is unknown]", fn)
+                else:
+                    ctx.check(same, "cgmass: all6 changes how much is returned, not the mass at the cg and the offset", fn)
+            obligation(table(ret[4], (3, 3)), Jc, "cgmass (all6): the inertia matrix returned is the inertia about the cg", fn, (3, 3))
+            gyr = table(ret[2], (3,))
+            if isinstance(gyr, list):
+                gyr = [g * g for g in gyr]
+            obligation(gyr, [J[i][i] / masses[i] for i in range(3)], "cgmass (all6): radii of gyration: gyr_i^2 = I_ii / m_i (inertia about the cg over the mass "
+                                                                      "in that direction)", fn, (3,))
+
+
 RULES = [
     ("C06-R1", r1_cbtf, 30),
     ("C06-R2", r2_conversion, 17),
@@ -1422,6 +1543,7 @@ RULES = [
     ("C06-R5", r5_cbcheck_quantities, 24),
     ("C06-R6", r6_coordchk, 8),
     ("C06-R7", r7_reorder_geometry, 2),
+    ("C06-R8", r8_cgmass, 7),
 ]
 LEVEL = "other"
 EXPLANATION = ("Static, decided on values (the functions are evaluated on symbols; arrays are found through the field names of the returned namespace, report "
@@ -1431,7 +1553,8 @@ EXPLANATION = ("Static, decided on values (the functions are evaluated on symbol
                "and rows; cbreorder permutes symmetrically; _solve_eig's static condensation of massless DOF (Schur complement, reduced mass, expansion satisfying the "
                "massless equilibrium) and its removal of null rows/columns, alone and combined; cbcheck's report and namespace use each rigid-body set with the matrix "
                "partition of its own size under its own label; _cbcoordchk's stiffness-based modes (identity at the reference DOF, -Koo^-1 Kor elsewhere, zero rows at "
-               "null DOF, per-DOF renumbering of the reference DOF after trimming).")
+               "null DOF, per-DOF renumbering of the reference DOF after trimming); cgmass run on the rigid mass T^T blkdiag(diag(mx, my, mz), J) T with polynomial "
+               "entries returns the offset d and blkdiag(diag(m), J) identically (exact algebra; direction-dependent translational mass included).")
 MANIFEST = {
     "text": "Thin partial claim decided statically: (R1) cbtf: enforced boundary acceleration, boundary / interior displacement, interior right-hand side and its 0 Hz guard, "
             "boundary force rows, velocity, interior solver partitions and rb=[], index-space typing of every subscript of the result, the all-boundary model, the solver cache; "
@@ -1441,9 +1564,13 @@ MANIFEST = {
             "and re-inserted as zeros, both reductions combined; (R5) cbcheck builds the mass, grounding and effective-mass quantities of the stiffness / geometry / "
             "eigensolution rigid-body sets from the matrix partition of each set's own size and writes each under its own label / namespace field, rbe normalised at the "
             "reference DOF; (R6) _cbcoordchk: identity at the reference DOF, -Koo^-1 Kor at the other boundary DOF, null boundary DOF trimmed and re-inserted as zero rows, "
-            "reference DOF renumbered one by one after trimming, modal rows zero. Not decided: cbcheck's rigid-body, effective-mass and grounding numbers, cgmass, numerical "
-            "accuracy of cbtf.",
-    "note": "Trusted: CPython ast; verifier/e2_formula.py, verifier/c06_sem.py; the USET row layout documented in n2p.addgrid (row 1 location, row 2 ids, row 3 origin, rows 4-6 T).",
+            "reference DOF renumbered one by one after trimming, modal rows zero; (R7) cbcheck(reorder=True) hands the geometry rows over in the order of the reordered matrices; "
+            "(R8) cgmass evaluated entry by entry on the symbolic rigid 6x6 mass M = T^T blkdiag(diag(mx, my, mz), J) T (T = [[1, -skew(d)], [0, 1]]): returned offset = d, "
+            "mass at the cg = blkdiag(diag(mx, my, mz), J) (translational block, both coupling blocks zero, rotary block J as polynomial identities), all6 returns the same "
+            "two plus I = J and gyr_i^2 = J_ii / m_i. Not decided: cbcheck's rigid-body, effective-mass and grounding numbers, cgmass's principal-axis results (eigensolution) "
+            "and its behaviour on non-rigid or non-symmetric input, numerical accuracy of cbtf.",
+    "note": "Trusted: CPython ast; verifier/e2_formula.py, verifier/c06_sem.py, verifier/c06_cgmass.py (numpy semantics of dense arrays of concrete shape: views, broadcasting, "
+            "in-place updates); the USET row layout documented in n2p.addgrid (row 1 location, row 2 ids, row 3 origin, rows 4-6 T).",
     "technique": "symbolic evaluation on values (arrays as objects, namespaces by field name, helpers followed, regimes as facts about values) + index-space typing of the "
                  "evaluated subscripts",
 }
